@@ -241,6 +241,13 @@ def render_kbmag(rng, labels, transitions, initial, style):
 def gen_kbmag(rng, n):
     for name in U.builtin_names():
         yield {"builtin": name}
+    # G14: one state, one letter, every list an interval [k..k]
+    for transitions in ([[1]], [[0]], [[2], [2]]):
+        st = {"intervals": True, "quoted": False, "inner": 0.0, "name": "_RWS.wa"}
+        text = render_kbmag(rng, ["a"], transitions, [1], st)
+        while "[1..1]" not in text:
+            text = render_kbmag(rng, ["a"], transitions, [1], st)
+        yield {"labels": ["a"], "transitions": transitions, "initial": [1], "text": text, "style": st}
     for _ in range(n):
         nl = rng.choice([1, 2, 2, 3, 4, 6])
         alphabet = rng.choice([list("abcdef"), list("aAbBcC"), ["x", "y", "zz", "gen1", "t_2", "Q"]])
